@@ -613,7 +613,7 @@ func factsC09() {
 	}
 	kMethod := find(0, func(s ast.Stmt) bool {
 		i, ok := s.(*ast.IfStmt)
-		return ok && i.Init != nil && strings.Contains(show(i.Init), "sta.ProxyBook[ci.ProxyMethod]") && show(i.Cond) == "!ok"
+		return ok && i.Init != nil && (strings.Contains(show(i.Init), "sta.ProxyBook[ci.ProxyMethod]") || strings.Contains(show(i.Init), "sta.ProxyBook[strings.ToLower(ci.ProxyMethod)]")) && show(i.Cond) == "!ok"
 	})
 	code("dcBadMethodAction", kMethod, "unknown proxy method")
 	kUser := find(0, func(s ast.Stmt) bool {
